@@ -90,20 +90,28 @@ pub struct ParentCfg {
     pub assumptions: Vec<String>,
     /// extra worker argument (e.g. configuration)
     pub extra: Vec<String>,
+    /// configuration groups ("network/traces"); each group gets its own worker processes
+    pub groups: Vec<String>,
 }
 
 /// Spawn worker processes of this binary and merge what they report.
 pub fn spawn_workers(p: &ParentCfg) -> (BTreeMap<String, Stats>, Vec<String>) {
     let exe = std::env::current_exe().expect("exe");
     let mut children = Vec::new();
-    for i in 0..p.nworkers {
-        let mut c = std::process::Command::new(&exe);
-        c.arg("worker").arg(&p.property).arg(&p.tier).arg(i.to_string()).arg(p.nworkers.to_string()).arg(format!("{}", p.budget_s)).arg(p.seed.to_string()).arg(((p.validate_total as u64 + p.nworkers - 1) / p.nworkers).to_string());
-        for e in &p.extra {
-            c.arg(e);
+    // one configuration (network, trace flag) per worker process: workers are split into groups
+    let groups: Vec<String> = if p.groups.is_empty() { vec![String::new()] } else { p.groups.clone() };
+    let per = (p.nworkers / groups.len() as u64).max(1);
+    for g in &groups {
+        for i in 0..per {
+            let mut c = std::process::Command::new(&exe);
+            c.arg("worker").arg(&p.property).arg(&p.tier).arg(i.to_string()).arg(per.to_string()).arg(format!("{}", p.budget_s)).arg(p.seed.to_string()).arg(((p.validate_total as u64 + p.nworkers - 1) / p.nworkers).to_string());
+            c.arg(format!("group={}", g));
+            for e in &p.extra {
+                c.arg(e);
+            }
+            c.stdout(std::process::Stdio::piped()).stderr(std::process::Stdio::piped());
+            children.push(c.spawn().expect("spawn worker"));
         }
-        c.stdout(std::process::Stdio::piped()).stderr(std::process::Stdio::piped());
-        children.push(c.spawn().expect("spawn worker"));
     }
     let mut merged: BTreeMap<String, Stats> = BTreeMap::new();
     let mut errors = Vec::new();
